@@ -131,8 +131,9 @@ def check(P, R):
     # ---- f
     c01.check_lookback(P, R, 'C11.f', what=('hooks',))
     gt = P.func(f'{RD}:RadiDict.get')
-    apps = [c for c in walk_shallow(gt.node) if isinstance(c, ast.Call) and call_attr(c) == 'append' and dotted(c.func.value) == 'hooks']
-    ok = len(apps) >= 2 and all(isinstance(c.args[0], ast.List) and len(c.args[0].elts) == 2 and src(c.args[0].elts[0]) == 'i' for c in apps)
+    roles = c01.get_roles(P)
+    apps = [c for c in walk_shallow(gt.node) if isinstance(c, ast.Call) and call_attr(c) == 'append' and dotted(c.func.value) == roles['hooks']]
+    ok = len(apps) >= 2 and all(isinstance(c.args[0], ast.List) and len(c.args[0].elts) == 2 and src(c.args[0].elts[0]) == roles['cursor'] for c in apps)
     R.ob('C11.f', gt, apps[0] if apps else gt.node, ok, text=f'{len(apps)} sites append [position, hooks] in descent order', detail='' if ok else
          'hooks are not collected as [path position, hooks] after each consumed key')
     for c in apps:
@@ -146,7 +147,9 @@ def check(P, R):
     if ok:
         lp = fors[0]
         calls = [c for st in lp.body for c in walk_shallow(st) if isinstance(c, ast.Call) and isinstance(c.func, ast.Name)]
-        ok = any(c.args and 'path[:1 + ' in src(c.args[0]) for c in calls) and 'HookTypes.SIMPLE' in src(lp)
+        pos = lp.target.elts[0].id if isinstance(lp.target, ast.Tuple) and isinstance(lp.target.elts[0], ast.Name) else '?'
+        ok = any(c.args and isinstance(c.args[0], ast.Subscript) and isinstance(c.args[0].slice, ast.Slice) and c.args[0].slice.lower is None
+                 and src(c.args[0].slice.upper).replace(' ', '') in (f'1+{pos}', f'{pos}+1') for c in calls) and 'HookTypes.SIMPLE' in src(lp)
     R.ob('C11.f', hd, fors[0] if fors else hd.node, ok, text='handler fires hooks in list order with path[:1 + pos]', detail='' if ok else
          'route hooks are not invoked outermost-first with the matched prefix')
 
